@@ -144,6 +144,12 @@ RecvEv(e) ==
   \* C09: whatever an attacker injects (verbatim replay or fabricated, any claimed source: id 0 = not delivered by the
   \* network on behalf of a node), peers and routes are exactly what the protocol prescribes for that datagram
   /\ When(e.id = 0, Chk({"C09"}, "injected-keeps-peers-and-routes", Addrs(obs.peers) = Addrs(pred.peers) /\ obs.claims = pred.claims))
+  \* C08 / C09 / C01: a datagram somebody injected (a replay - also of the node's own datagrams - or a fabrication) that
+  \* the node refuses leaves nothing behind but, at most, the end of the handshake attempt it was handed to
+  /\ When(e.id = 0 /\ ~plainSrc /\ e.res \in {"ignored", "err", "errinit", "fatal"},
+        Chk({"C01", "C08", "C09"}, "refused-injection-leaves-no-state",
+            /\ obs.peers = pre.peers /\ obs.claims = pre.claims /\ obs.own = pre.own /\ obs.np = pre.np /\ obs.rc = pre.rc
+            /\ obs.cache = pre.cache /\ obs.pend \subseteq pre.pend /\ e.sent = <<>> /\ e.wrote = 0))
   \* effects per result
   /\ Compare("recv-" \o e.res, pred, obs)
   /\ Unless(e.tagerr,
@@ -169,6 +175,9 @@ RecvEv(e) ==
   \* C14: every peer the message lists that is neither connected nor the node itself is dialled, nothing else is
   /\ When(e.res \in {"nodeinfo", "initialized", "initialized-reply"},
         Chk({"C14"}, "peer-list-dials", Addrs(obs.pend) = Addrs(pred.pend)))
+  \* C02 / C10: what a peer sealed from its interface reaches this interface byte-identical
+  /\ When(e.res = "data" /\ genuine /\ e.fk /\ ~plainSrc,
+        Chk({"C02", "C10"}, "delivered-byte-identical", e.same))
   \* C15: only node information and keepalive messages (and the handshake) refresh a peer
   /\ When(e.res \in {"data", "none", "err", "errinit", "ignored", "reply"},
         Chk({"C15"}, "only-announcements-refresh", Expiry(obs.peers) = Expiry(pre.peers)))
